@@ -334,7 +334,7 @@ def run_lattice(case, ctx, base):
     if f is None:
         gc.collect()    # a refused File.open leaves a half-constructed h5py handle behind
         classes.append("refusal:" + excname)
-        if sha(path) != before:
+        if mode != "w" and sha(path) != before:
             ctx.violation("%s/refused-open-changed-file/%s" % (kb, reason), case, {"exc": excname})
         if want:
             ctx.violation("%s/refused-but-must-open/%s" % (kb, reason), case, {"exc": excname})
